@@ -74,6 +74,8 @@ def can_continue(r):
 
 
 class CaseSpec:
+    tailpos = False                   # the case is the last statement of the parser: nothing follows it (no ";")
+
     def __init__(self, clauses, else_marker, greedy, tail=False, tail_of=None):
         self.tail = tail              # clause bodies end with the match "!" (markers are then scheduled on the way out)
         self.tail_of = tail_of or {}  # per marker, when the clauses differ (action-only clauses next to clauses with a body)
@@ -88,6 +90,9 @@ class CaseSpec:
     def marker_event(self, v):
         return ("set", "n", ("lit", str(v), "INT"))
 
+    def marker_events(self, v):
+        return [] if v < 0 else [self.marker_event(v)]
+
     def winner(self, ds):
         comp = [(self.flat[i][2], self.flat[i][1]) for i, d in enumerate(ds) if d != RX.EMPTY and RX.nullable(d)]
         if not comp:
@@ -98,6 +103,17 @@ class CaseSpec:
             return ("ambiguous", sorted(top))
         return next(iter(top))
 
+    def complete(self, R):
+        if R[0] == "done":
+            return True
+        if self.tailpos:
+            if R[0] == "semi":
+                return True
+            if R[0] == "case":
+                w = self.winner(R[1])
+                return w is not None and not isinstance(w, tuple) and not self.tail_of.get(w, self.tail)
+        return False
+
     def step(self, R, b):
         """-> (events, kind, R') with kind in consumed / fail / done"""
         if R[0] == "done":
@@ -107,6 +123,8 @@ class CaseSpec:
                 return ([], "consumed", ("semi",))
             return ([], "fail", None)
         if R[0] == "semi":
+            if self.tailpos:
+                return ([], "done", ("done",))       # nothing follows the case: the program is complete, the byte is not looked at
             if b == 59:
                 return ([], "consumed", ("done",))
             return ([], "fail", None)
@@ -117,17 +135,17 @@ class CaseSpec:
             if not any(can_continue(d) for d in nd):
                 w = self.winner(nd)
                 if w is not None and not isinstance(w, tuple) and not self.tail_of.get(w, self.tail):
-                    return ([self.marker_event(w)], "consumed", ("semi",))
+                    return (self.marker_events(w), "consumed", ("semi",))
             return ([], "consumed", ("case", nd))
         w = self.winner(ds)
         if isinstance(w, tuple):
             return ([], "ambiguous", None)
         if w is not None:
             ev, kind, R2 = self.step(("bang",) if self.tail_of.get(w, self.tail) else ("semi",), b)
-            return ([self.marker_event(w)] + ev, kind, R2)
+            return (self.marker_events(w) + ev, kind, R2)
         if self.else_marker is not None:
             ev, kind, R2 = self.step(("bang",) if self.tail_of.get(self.else_marker, self.tail) else ("semi",), b)
-            return ([self.marker_event(self.else_marker)] + ev, kind, R2)
+            return (self.marker_events(self.else_marker) + ev, kind, R2)
         return ([], "fail", None)
 
 
@@ -162,10 +180,13 @@ def spec_from_source(nmfu, src):
             body = body[:1]
         else:
             tails.append(False)
-        if len(body) != 1 or body[0].data != "assign_stmt":
+        if len(body) == 0:
+            mk = -1 - len(tail_of)            # empty clause body: no marker event (a private negative id keeps the clauses apart)
+        elif len(body) != 1 or body[0].data != "assign_stmt":
             raise ValueError("clause body is not the marker assignment")
-        expr = body[0].children[1]
-        mk = int(list(expr.find_data("math_num"))[0].children[0].value) if list(expr.find_data("math_num")) else int(expr.children[0].value)
+        else:
+            expr = body[0].children[1]
+            mk = int(list(expr.find_data("math_num"))[0].children[0].value) if list(expr.find_data("math_num")) else int(expr.children[0].value)
         tail_of[mk] = tails[-1]
         if has_else:
             else_marker = mk
@@ -178,9 +199,9 @@ def spec_from_source(nmfu, src):
             pr = int(blk.children[0].value)
             for cl in blk.children[1:]:
                 clause(cl, pr)
-    if len(set(tails)) != 1:
-        return CaseSpec(clauses, else_marker, greedy, tail=False, tail_of=tail_of)
-    return CaseSpec(clauses, else_marker, greedy, tail=tails[0])
+    sp = CaseSpec(clauses, else_marker, greedy, tail=False, tail_of=tail_of) if len(set(tails)) != 1 else CaseSpec(clauses, else_marker, greedy, tail=tails[0])
+    sp.tailpos = len(pd.children) == 1
+    return sp
 
 
 def check(nmfu, cctx, spec, limit=50000):
@@ -198,7 +219,7 @@ def check(nmfu, cctx, spec, limit=50000):
         seen.add(key)
         if len(seen) > limit:
             return "search bound exceeded", n
-        if (id(q) in acc) != (R[0] == "done"):
+        if (id(q) in acc) != spec.complete(R):
             return f"after {path!r} the machine is {'accepting' if id(q) in acc else 'not accepting'} but the case statement and the following \";\" are {'complete' if R[0] == 'done' else 'not complete'}", n
         for b in range(256):
             ev, kind, R2 = spec.step(R, b)
